@@ -42,6 +42,11 @@ def cases(tier, variants):
             yield dict(c, sc=s, tgt=1, upd=1)
             yield dict(c, sc=s, tgt=0, user="samebuf")
             yield dict(c, sc=s, tgt=0, user="constbuf")
+    # finite-difference gradient with power-of-two scales (s*(f(x+h)-f(x))/h is then
+    # bit-identical to the difference quotient of s*f)
+    for c in F.convex_cases(2, variants, (3,), fams=("qp",), hesses=("rot2",)):
+        for s2 in (0.125, 8.0):
+            yield dict(c, part="fd", s2=s2, tgt=0, sc=0)
     # restart letter: a scaler returning exactly 1.0 on a restart changes nothing, is called
     # once with (checkpoint.x, checkpoint.jac, bounds) and costs no evaluation
     for c in F.convex_cases(2, variants, (3,), fams=("quart",), hesses=("rot2",)):
@@ -64,6 +69,8 @@ def run(case):
     p = F.problem_of(case)
     if case.get("part") == "restart1":
         return run_restart1(p, case)
+    if case.get("part") == "fd":
+        return run_fd(p, case)
     x0c = np.clip(p.x0, p.lb, p.ub)
     g0 = np.asarray(p.g(x0c), float)
     s = SCALES[case["sc"]]
@@ -188,3 +195,27 @@ def run_restart1(p, case):
     elif not (np.array_equal(calls[0][0], ck.x) and np.array_equal(calls[0][1], ck.jac)):
         viol.append(V("scaler_called_with_wrong_arguments", x=calls[0][0], g=calls[0][1]))
     return dict(viol=viol, outcome="restart1", nontrivial=core.case_hash(case))
+
+
+def run_fd(p, case):
+    from lbfgsb import minimize_lbfgsb
+    s = case["s2"]
+    kw = dict(bounds=p.bounds, maxcor=case["maxcor"], maxiter=15, ftol=1e-12, gtol=1e-9,
+              jac="2-point")
+    oa = F.Obs(p.f, p.g, p.lb, p.ub)
+    ob = F.Obs(lambda x: p.f(x) * s, p.g, p.lb, p.ub)
+    viol = []
+    try:
+        a = minimize_lbfgsb(x0=p.x0.copy(), fun=oa.fun, gradient_scaler=(lambda *a_: s), **kw)
+        b = minimize_lbfgsb(x0=p.x0.copy(), fun=ob.fun, **kw)
+    except core.CaseTimeout:
+        raise
+    except Exception as e:
+        return dict(viol=[], outcome="exception:" + type(e).__name__, stats={"exceptions": 1})
+    bad = H.same_state(a, b)
+    if bad or str(a.message) != str(b.message):
+        viol.append(V("scaler_run_differs_from_scaled_objective_run", fields=bad, s=s, jac="2-point"))
+    if oa.calls != ob.calls:
+        viol.append(V("evaluation_logs_differ", na=len(oa.calls), nb=len(ob.calls), s=s))
+    return dict(viol=viol, outcome=f"fd|{a.message}",
+                nontrivial=core.case_hash(case) if a.nit >= 2 else None)
